@@ -1,13 +1,29 @@
 import Afkak.Monitor.C12
 import AfkakProofs.Crc.Table
+import AfkakProofs.Crc.Burst
+import AfkakProofs.Crc.Message
+import AfkakProofs.Crc.LinDecoders
+import AfkakProofs.Crc.SetCost
+import AfkakProofs.Crc.Truncate
+import AfkakProofs.Crc.CorruptSet
+import AfkakProofs.Crc.Grow
+import AfkakProofs.Crc.CrcField
+import AfkakProps.Open.C12
 /-!
 # C12 — corrupted or truncated message data is never delivered; decoding is linear
 Property theorems only; helper lemmas live in `AfkakProofs/Crc/`.
+
+Bit order.  "Burst of span ≤ 32" means: the set bits of the error pattern lie within 32
+consecutive bits of the byte string read in the order CRC-32 consumes it — byte by byte, least
+significant bit of each byte first (`Afkak.Crc32.bitsOf`, `Afkak.Monitor.C12.burstWithin`).
+Every alteration confined to four consecutive bytes is such a burst, whatever the bit order.
 -/
 namespace Afkak.Props.C12
-open Afkak.Crc32
+open Afkak.Crc32 Afkak.WireCost Afkak.C12 Afkak.Monitor.C12
 
-/-- The byte-table CRC the decoder model runs is the bit-serial LFSR definition. -/
+/-! ## (a) corruption -/
+
+/-- The byte-table CRC the decoder model runs (zlib's algorithm) is the bit-serial LFSR. -/
 theorem C12_crc_table (data : List UInt8) : crc32 data = crcSpec data :=
   crc32_eq_crcSpec data
 
@@ -18,11 +34,248 @@ theorem C12_burst_bits (pre w w' post : List Bool) (hl : w.length = w'.length)
     crcBits (pre ++ w ++ post) ≠ crcBits (pre ++ w' ++ post) :=
   crcBits_window pre w w' post hl h32 hne
 
+/-- Byte strings: XOR-ing a non-zero error pattern of span ≤ 32 bits changes the CRC-32. -/
+theorem C12_burst_crc (data e : List UInt8) (k : Nat) (hl : e.length = data.length)
+    (hnz : nonzero e = true) (hw : burstWithin e k 32 = true) :
+    crc32 (xorBytes data e) ≠ crc32 data :=
+  crc32_burst data e k hl hnz hw
+
+/-- **Burst detection, all message lengths.**  A message whose stored CRC matches, altered by any
+    non-zero burst of span ≤ 32 bits inside its checksummed region (everything after the four CRC
+    bytes: magic..value), is rejected by `_decode_message` with `ChecksumError` before anything is
+    interpreted: nothing is yielded, for every nested-set decoder, gunzip function and offset. -/
+theorem C12_burst (inner : List UInt8 → SetOut) (gz : Gz) (off : Int) (msg e : List UInt8) (k : Nat)
+    (hcrc : crcOk msg = true) (hb : isBurst msg.length e k = true) :
+    decodeMessage inner gz (some (xorBytes msg e)) off
+      = .out [] (some .checksum) (1 + (msg.length - 4)) 0 :=
+  decodeMessage_burst inner gz off msg e k hcrc hb
+
+/-- An alteration confined to the four stored CRC bytes (any non-zero pattern) is rejected as well:
+    the checksummed region is unchanged, the stored word is not. -/
+theorem C12_crc_field_error (inner : List UInt8 → SetOut) (gz : Gz) (off : Int) (msg e : List UInt8)
+    (hcrc : crcOk msg = true) (hel : e.length = msg.length)
+    (hf : nonzero (e.take 4) = true) (hz : (e.drop 4).all (fun b => b == 0) = true) :
+    decodeMessage inner gz (some (xorBytes msg e)) off
+      = .out [] (some .checksum) (1 + (msg.length - 4)) 0 :=
+  decodeMessage_crc_field inner gz off msg e hcrc hel hf hz
+
+/-- The same inside a message set: with plain messages `before` the altered one and anything after
+    it, iteration yields exactly `before`, then raises `ChecksumError`. -/
+theorem C12_burst_in_set (gz : Gz) (depth : Nat) (before : List (Int × Msg)) (off : Int)
+    (msg e : List UInt8) (k : Nat) (tail : List UInt8)
+    (hpl : ∀ om ∈ before, plainEntry om = true) (ho : int64 off = true)
+    (hlen : msg.length < 2147483648)
+    (hcrc : crcOk msg = true) (hb : isBurst msg.length e k = true) :
+    let bad := xorBytes msg e
+    let data := encodeSet before ++ (toBESigned 8 off ++ toBESigned 4 bad.length ++ bad) ++ tail
+    (decodeSet gz depth data).msgs = before ∧ (decodeSet gz depth data).err = some Err.checksum :=
+  decodeSet_corrupt gz depth before off msg e k tail hpl ho hlen hcrc hb
+
+/-- The model's outcome satisfies the monitor that is evaluated on the real decoder's outcome. -/
+theorem C12_burst_monitor (gz : Gz) (depth : Nat) (before : List (Int × Msg)) (off : Int)
+    (msg e : List UInt8) (k : Nat) (tail : List UInt8)
+    (hpl : ∀ om ∈ before, plainEntry om = true) (ho : int64 off = true)
+    (hlen : msg.length < 2147483648) :
+    let bad := xorBytes msg e
+    let data := encodeSet before ++ (toBESigned 8 off ++ toBESigned 4 bad.length ++ bad) ++ tail
+    burstOk msg e k before (decodeSet gz depth data).msgs (decodeSet gz depth data).err = true := by
+  intro bad data
+  unfold burstOk
+  by_cases h : (crcOk msg && isBurst msg.length e k) = true
+  · simp only [Bool.and_eq_true] at h
+    obtain ⟨h1, h2⟩ := decodeSet_corrupt gz depth before off msg e k tail hpl ho hlen h.1 h.2
+    simp only [bad, data] at h1 h2 ⊢
+    rw [h1, h2]; simp [h.1, h.2]
+  · simp only [Bool.not_eq_true] at h
+    simp [h]
+
+/-- A burst placed anywhere in the message — here straddling the stored CRC field and the first
+    checksummed bytes — is NOT always detected: this 27-byte v1 message and this error pattern (set
+    bits within bits 20..51) pass the CRC check and the altered attributes/timestamp are yielded. -/
+theorem C12_burst_any_position_counterexample : ¬ Open.C12_burst_any_position := by
+  intro h
+  let msg : List UInt8 := [0x49, 0x95, 0xe6, 0x5e, 0x01, 0x00, 0, 0, 0, 0, 0, 0, 0, 0,
+    0xff, 0xff, 0xff, 0xff, 0, 0, 0, 5, 0, 0, 0, 0, 0]
+  let e : List UInt8 := [0x00, 0x00, 0x70, 0x6f, 0x00, 0x1c, 0x0f, 0, 0, 0, 0, 0, 0, 0,
+    0, 0, 0, 0, 0, 0, 0, 0, 0, 0, 0, 0, 0]
+  obtain ⟨c, hc⟩ := h (fun _ => ⟨[], none, 0, 0⟩) (fun _ => .error "") 0 msg e 20
+    (by decide +kernel) (by decide) (by decide) (by decide +kernel)
+  have : (match decodeMessage (fun _ => ⟨[], none, 0, 0⟩) (fun _ => .error "") (some (xorBytes msg e)) 0 with
+      | .out [] (some .checksum) _ _ => true
+      | _ => false) = false := by decide +kernel
+  rw [hc] at this
+  cases this
+
+/-! ## (b) truncation -/
+
+/-- **Truncation.**  Iterating the first `c` bytes of an encoded set of plain messages yields
+    exactly the messages whose entries are complete, then ends normally; when `0 < c` and not even
+    one entry is complete it yields nothing and raises `ConsumerFetchSizeTooSmall`; `c = 0` gives
+    `[]`. -/
+theorem C12_truncate (gz : Gz) (depth : Nat) (ms : List (Int × Msg)) (c : Nat)
+    (hpl : ∀ om ∈ ms, plainEntry om = true) (hc : c ≤ (encodeSet ms).length) :
+    (decodeSet gz depth ((encodeSet ms).take c)).msgs
+        = ms.take (completeCount (ms.map entryLen) c) ∧
+    (decodeSet gz depth ((encodeSet ms).take c)).err
+        = (if 0 < completeCount (ms.map entryLen) c ∨ c = 0 then none
+           else some Err.fetchSizeTooSmall) :=
+  decodeSet_truncate gz depth ms c hpl hc
+
+/-- The model's outcome satisfies the truncation monitor evaluated on the real decoder. -/
+theorem C12_truncate_monitor (gz : Gz) (depth : Nat) (ms : List (Int × Msg)) (c : Nat)
+    (hpl : ∀ om ∈ ms, plainEntry om = true) (hc : c ≤ (encodeSet ms).length) :
+    truncOk (ms.map entryLen) ms c (decodeSet gz depth ((encodeSet ms).take c)).msgs
+      (decodeSet gz depth ((encodeSet ms).take c)).err = true :=
+  decodeSet_truncOk gz depth ms c hpl hc
+
+/-- A plain message decodes to itself (what "the complete messages" are). -/
+theorem C12_message_roundtrip (inner : List UInt8 → SetOut) (gz : Gz) (off : Int) (m : Msg)
+    (hp : plainMsg m = true) :
+    ∃ k, decodeMessage inner gz (some (encodeMessage m)) off = .out [(off, m)] none k 0 :=
+  decodeMessage_roundtrip inner gz off m hp
+
+/-- After a too-small answer the consumer enlarges the buffer strictly, never beyond the maximum,
+    gives up exactly when it is already at the maximum, and repeated too-small answers reach every
+    size the maximum allows.  (That the fetch offset is untouched is C14's `never_skips`: the growth
+    is a function of `(buffer_size, max_buffer_size)` only.) -/
+theorem C12_grow (b : Nat) (max : Option Nat) (hb : 1 ≤ b) :
+    (grow b max = none ↔ ∃ m, max = some m ∧ m ≤ b) ∧
+    (∀ b', grow b max = some b' → b < b' ∧ ∀ m, max = some m → b' ≤ m) ∧
+    (∀ m size, max = some m → b ≤ m → size ≤ m →
+      ∃ steps b', growN (some m) steps b = some b' ∧ size ≤ b' ∧ b' ≤ m) := by
+  refine ⟨grow_none_iff b max, ?_, ?_⟩
+  · intro b' h
+    refine ⟨grow_gt b max b' hb h, ?_⟩
+    intro m hm; subst hm; exact grow_le_max b m b' h
+  · intro m size _ hbm hs
+    exact growN_reaches m size hs (size - b) b rfl hb hbm
+
+/-- Without a maximum the buffer is multiplied by the source's factor for the current size
+    (`c12GrowFactorSmall` up to `c12GrowThreshold`, `c12GrowFactor` above), which is at least 2. -/
+theorem C12_grow_factors (b : Nat) :
+    grow b none = some (b * growFactor b) ∧ 2 ≤ growFactor b :=
+  ⟨grow_unbounded b, growFactor_ge_two b⟩
+
+/-! ## (c) linear cost, for EVERY byte string -/
+
+/-- Each primitive reader is one unit of cost and, on success, leaves the cursor inside the buffer
+    and not before where it started (no backward moves: finding F15 is fixed). -/
+theorem C12_linear_readers :
+    Lin 0 1 readShortBytes ∧ Lin 0 1 readIntString ∧ Lin 0 0 readShortAscii ∧ Lin 0 0 readShortText ∧
+    (∀ fmt, fmtSize fmt ≠ some 0 → Lin 0 1 (relativeUnpack fmt)) ∧
+    (∀ ch n, Lin 1 0 (relativeUnpackN ch n)) :=
+  ⟨lin_readShortBytes, lin_readIntString, lin_readShortAscii, lin_readShortText,
+    lin_relativeUnpack, lin_relativeUnpackN⟩
+
+theorem C12_linear_api_versions (bs : List UInt8) :
+    (run decodeApiVersions bs).cost ≤ 2 * bs.length + 1 := lin_run lin_decodeApiVersions bs
+theorem C12_linear_produce (v : Int) (bs : List UInt8) :
+    (run (decodeProduce v) bs).cost ≤ 2 * bs.length + 1 := lin_run (lin_decodeProduce v) bs
+theorem C12_linear_fetch (v : Int) (bs : List UInt8) :
+    (run (decodeFetch v) bs).cost ≤ 2 * bs.length + 1 := lin_run (lin_decodeFetch v) bs
+theorem C12_linear_offset (bs : List UInt8) :
+    (run decodeOffset bs).cost ≤ 2 * bs.length + 1 := lin_run lin_decodeOffset bs
+theorem C12_linear_metadata (bs : List UInt8) :
+    (run decodeMetadata bs).cost ≤ 2 * bs.length + 1 := lin_run lin_decodeMetadata bs
+theorem C12_linear_consumermetadata (bs : List UInt8) :
+    (run decodeConsumerMetadata bs).cost ≤ 2 * bs.length + 1 := lin_run lin_decodeConsumerMetadata bs
+theorem C12_linear_offset_commit (bs : List UInt8) :
+    (run decodeOffsetCommit bs).cost ≤ 2 * bs.length + 1 := lin_run lin_decodeOffsetCommit bs
+theorem C12_linear_offset_fetch (bs : List UInt8) :
+    (run decodeOffsetFetch bs).cost ≤ 2 * bs.length + 1 := lin_run lin_decodeOffsetFetch bs
+theorem C12_linear_join_group_protocol_metadata (bs : List UInt8) :
+    (run decodeJoinGroupProtocolMetadata bs).cost ≤ 2 * bs.length + 1 :=
+  lin_run lin_decodeJoinGroupProtocolMetadata bs
+theorem C12_linear_join_group (bs : List UInt8) :
+    (run decodeJoinGroup bs).cost ≤ 2 * bs.length + 1 := lin_run lin_decodeJoinGroup bs
+theorem C12_linear_leave_group (bs : List UInt8) :
+    (run decodeLeaveGroup bs).cost ≤ 2 * bs.length + 1 := lin_run lin_decodeLeaveGroup bs
+theorem C12_linear_heartbeat (bs : List UInt8) :
+    (run decodeHeartbeat bs).cost ≤ 2 * bs.length + 1 := lin_run lin_decodeHeartbeat bs
+theorem C12_linear_sync_group (bs : List UInt8) :
+    (run decodeSyncGroup bs).cost ≤ 2 * bs.length + 1 := lin_run lin_decodeSyncGroup bs
+theorem C12_linear_sync_group_member_assignment (bs : List UInt8) :
+    (run decodeSyncGroupMemberAssignment bs).cost ≤ 2 * bs.length + 1 :=
+  lin_run lin_decodeSyncGroupMemberAssignment bs
+
+/-- Every response decoder's outcome satisfies the monitor `readsOk` evaluated on the real decoder's
+    step count (one instance shown; the other thirteen are the same line). -/
+theorem C12_linear_monitor (bs : List UInt8) :
+    readsOk bs.length (run decodeMetadata bs).cost = true := by
+  simpa [readsOk] using C12_linear_metadata bs
+
+/-- **Message sets**, every byte string, every gunzip function, every nesting depth: reader calls
+    + bytes checksummed ≤ 2·(|data| + bytes obtained from gunzip) + 2. -/
+theorem C12_linear_msgset (gz : Gz) (depth : Nat) (data : List UInt8) :
+    (decodeSet gz depth data).cost ≤ 2 * (data.length + (decodeSet gz depth data).gz) + 2 :=
+  (decodeSet_ok gz depth data).1
+
+theorem C12_linear_msgset_monitor (gz : Gz) (depth : Nat) (data : List UInt8) :
+    setCostOk data.length (decodeSet gz depth data).gz (decodeSet gz depth data).cost = true := by
+  simpa [setCostOk] using C12_linear_msgset gz depth data
+
+/-- The model's iteration fuel (|data| + 1) is never exhausted: termination of the `while` loop is
+    not an artefact of the fuel. -/
+theorem C12_fuel_suffices (gz : Gz) (depth : Nat) (data : List UInt8) :
+    (decodeSet gz depth data).err ≠ some Err.modelFuel :=
+  (decodeSet_ok gz depth data).2
+
+/-! ## Non-vacuity: concrete values meeting the hypotheses -/
+
+/-- a v1 message with null key, its CRC, and a 3-bit burst in its attributes byte -/
+example : crcOk [0x49, 0x95, 0xe6, 0x5e, 0x01, 0x00, 0, 0, 0, 0, 0, 0, 0, 0,
+    0xff, 0xff, 0xff, 0xff, 0, 0, 0, 5, 0, 0, 0, 0, 0] = true := by decide +kernel
+example : isBurst 27 [0, 0, 0, 0, 0x00, 0x1c, 0x0f, 0, 0, 0, 0, 0, 0, 0,
+    0, 0, 0, 0, 0, 0, 0, 0, 0, 0, 0, 0, 0] 10 = true := by decide +kernel
+/-- a single flipped bit is a burst -/
+example : isBurst 27 [0, 0, 0, 0, 0, 0, 0, 0, 0, 0x10, 0, 0, 0, 0,
+    0, 0, 0, 0, 0, 0, 0, 0, 0, 0, 0, 0, 0] 44 = true := by decide +kernel
+/-- plain entries: v0 with key, v1 with null key and a timestamp -/
+example : plainEntry (7, { magic := 0, attrs := 0, key := some [1, 2], value := some [3], ts := none }) = true
+    ∧ plainEntry (8, { magic := 1, attrs := 8, key := none, value := some [], ts := some 1700000000000 }) = true := by
+  decide +kernel
+/-- the encoder used in the theorems produces the 27-byte message above -/
+example : encodeMessage { magic := 1, attrs := 0, key := none, value := some [0, 0, 0, 0, 0], ts := some 0 }
+    = [0x49, 0x95, 0xe6, 0x5e, 0x01, 0x00, 0, 0, 0, 0, 0, 0, 0, 0,
+       0xff, 0xff, 0xff, 0xff, 0, 0, 0, 5, 0, 0, 0, 0, 0] := by decide +kernel
+
 end Afkak.Props.C12
 
 /- OBLIGATIONS
 C12_crc_table
 C12_burst_bits
+C12_burst_crc
+C12_burst
+C12_crc_field_error
+C12_burst_in_set
+C12_burst_monitor
+C12_burst_any_position_counterexample
+C12_truncate
+C12_truncate_monitor
+C12_message_roundtrip
+C12_grow
+C12_grow_factors
+C12_linear_readers
+C12_linear_api_versions
+C12_linear_produce
+C12_linear_fetch
+C12_linear_offset
+C12_linear_metadata
+C12_linear_consumermetadata
+C12_linear_offset_commit
+C12_linear_offset_fetch
+C12_linear_join_group_protocol_metadata
+C12_linear_join_group
+C12_linear_leave_group
+C12_linear_heartbeat
+C12_linear_sync_group
+C12_linear_sync_group_member_assignment
+C12_linear_monitor
+C12_linear_msgset
+C12_linear_msgset_monitor
+C12_fuel_suffices
 -/
 /- OPEN_STATEMENTS
+C12_burst_any_position
+C12_linear_fetch_total
 -/
